@@ -1,4 +1,6 @@
 """C16 -- a Getter returns one record per Sid its Finder finds, in the same order (DESIGN 5.9)."""
+import json
+
 from .. import x as X
 from .base import gen_sid, gen_data, ATTR_KEYS
 from .storebase import StoreProfile, gen_search
@@ -224,7 +226,8 @@ class GetterProfile(StoreProfile):
                 want = {k: data.get(k) for k in attrs}
             else:
                 want = data
-            run.check(rec == want, "C16.record_content", dict(det, sid=v.uri, got=rec, want=want))
+            run.check(rec == want and json.dumps(rec, sort_keys=True, default=str) == json.dumps(want, sort_keys=True, default=str),
+                      "C16.record_content", dict(det, sid=v.uri, got=rec, want=want))    # (as JSON text too: 1, 1.0, True differ)
             run.check(list(rec) == list(want) or attrs is None, "C16.record_keys_order", dict(det, got=list(rec), want=list(want)))
         one = X.decode(obs[2])
         run.check(one == (recs[0] if recs else {}), "C16.get_one", dict(det, got=one, first=recs[0] if recs else {}))
